@@ -179,6 +179,10 @@ pub struct ThreadSt {
 	pub outcome: Option<String>,
 	pub retry_rounds: u32,
 	pub points: u32,
+	/// blocking raw acquisitions of the most recent acquiring call (C08)
+	pub last_acq_seq: Vec<u32>,
+	/// all raw acquisitions (blocking or try) that succeeded in the most recent acquiring call
+	pub last_acquired: Vec<(u32, Mode)>,
 }
 
 #[derive(Clone, Debug, serde::Serialize, serde::Deserialize)]
@@ -479,7 +483,7 @@ impl Exec {
 		let nlocks = is_rw.len();
 		let mut threads = vec![];
 		for _ in 0..MAXT {
-			threads.push(ThreadSt { status: Status::Finished, pending: None, result: false, chosen: 0, obs: 0, local: 0, use_local: false, pc: 0, ctx: CallCtx::none(), call_serial: 0, outcome: None, retry_rounds: 0, points: 0 });
+			threads.push(ThreadSt { status: Status::Finished, pending: None, result: false, chosen: 0, obs: 0, local: 0, use_local: false, pc: 0, ctx: CallCtx::none(), call_serial: 0, outcome: None, retry_rounds: 0, points: 0, last_acq_seq: vec![], last_acquired: vec![] });
 		}
 		for t in threads.iter_mut().take(nthreads) {
 			t.status = Status::NotStarted;
@@ -512,6 +516,15 @@ impl Exec {
 			}),
 			cv_thr: (0..MAXT).map(|_| Condvar::new()).collect(),
 		})
+	}
+
+	pub fn set_locks(&self, is_rw: Vec<bool>, unit: Vec<u32>) {
+		let mut g = self.lock();
+		let n = is_rw.len();
+		g.locks = vec![LockSt::default(); n];
+		g.shadow = vec![0; n];
+		g.lock_is_rw = is_rw;
+		g.lock_unit = unit;
 	}
 
 	pub fn lock(&self) -> StdGuard<'_, Inner> {
@@ -926,6 +939,10 @@ pub fn end_call() -> CallCtx {
 	if let Some((exec, tid)) = ctx() {
 		let mut g = exec.lock();
 		let c = std::mem::replace(&mut g.threads[tid].ctx, CallCtx::none());
+		if !c.acquired.is_empty() {
+			g.threads[tid].last_acq_seq = c.blocking_seq.clone();
+			g.threads[tid].last_acquired = c.acquired.clone();
+		}
 		c
 	} else {
 		CallCtx::none()
